@@ -48,9 +48,11 @@ class Rule :
                     return
 
             if hasattr(self, 'path_namespace'):
-                if (
-                    m.path is None
-                    or not m.path.startswith(self.path_namespace)
+                ns = self.path_namespace
+                if m.path is None or not (
+                    ns == '/'
+                    or m.path == ns
+                    or m.path.startswith(ns + '/')
                 ):
                     return
 
